@@ -424,6 +424,7 @@ def check(facts, rep, tier, cfg):
     rep.rule("C08.S7", "who-may: the functions that touch the critical resources behind this property are those of the reference tree (flow table, closed flag, per-stream / datagram / outbound queues, last-pong timestamp, client id maps, shared TLS identity)")
     import whomay
     whomay.check(facts, rep, "C08.S7", "C08")
+    whomay.check_new_statics(facts, rep, "C08.S7", "C08")
 
 
 def source_dispatch_before_eof(effs):
